@@ -214,10 +214,13 @@ let c15 t b =
       (match is_bfs_reachable g s tg mh with
        | Some r -> Buffer.add_string b (if r then "B 1" else "B 0")
        | None -> Buffer.add_string b "MODEL-FUEL")
-  | "S" ->
+  | ("S" | "M") as kind ->
       let k = next_nat t in
       let (g, w) = next_graph t in
-      let scan = next_list t next_nat in
+      (* S: the scan order is given.  M: the retained and the dropped sequence as observed on the implementation are given and the
+         scan order is recovered HERE by the extracted merge_scan (SpannerModel.v; C15_recovered_scan_reproduces is about that function) *)
+      let scan = if kind = "S" then next_list t next_nat
+                 else (let r = next_list t next_nat in let d = next_list t next_nat in merge_scan w r d) in
       (match construct_spanner g k scan with
        | SpOk sp ->
            Buffer.add_string b "NV "; pr_nat b sp.sp_graph.nv;
